@@ -259,6 +259,18 @@ def run_cam_case(c, res):
                         if min((gd - want_gd) % 65536, (want_gd - gd) % 65536) <= 1 and abs(pos["latitude"] - int(cand["lat"] * 1e7)) <= 1 and abs(pos["longitude"] - int(cand["lon"] * 1e7)) <= 1:
                             ok_content = True
                             tpv = cand
+                            # dynamics of THIS report: a field the report lacks is 'unavailable', not an older report's value
+                            hfc = d["cam"]["camParameters"]["highFrequencyContainer"][1]
+                            sv, hv = hfc["speed"]["speedValue"], hfc["heading"]["headingValue"]
+                            want_s = 16383 if "speed" not in cand else min(16382, int(round(cand["speed"] * 100)))
+                            want_h = 3601 if "track" not in cand else int(round(cand["track"] * 10)) % 3600
+                            res.count("cam.dynamics_content_checked")
+                            if abs(sv - want_s) > 1 and not ("speed" in cand and abs(sv - int(cand["speed"] * 100)) <= 1):
+                                res.violation("C10:cam-does-not-reflect-latest-report[speed" + ("-missing-in-report]" if "speed" not in cand else "]"),
+                                              f"CAM at +{tc - t_base:.3f} s carries speedValue {sv}, the latest report says {cand.get('speed')}", ctx)
+                            if min((hv - want_h) % 3600, (want_h - hv) % 3600) > 1 and not (hv == 3601 and want_h == 3601) and not ("track" in cand and hv in (3600, 0) and want_h in (0, 3599, 3600)):
+                                res.violation("C10:cam-does-not-reflect-latest-report[heading" + ("-missing-in-report]" if "track" not in cand else "]"),
+                                              f"CAM at +{tc - t_base:.3f} s carries headingValue {hv}, the latest report says {cand.get('track')}", ctx)
                     if not ok_content:
                         res.violation("C10:cam-does-not-reflect-latest-report", f"CAM at +{tc - t_base:.3f} s: generationDeltaTime {gd}, position {pos['latitude']},{pos['longitude']}; latest report {cands[0]['time']}", ctx)
                     has_lf = "lowFrequencyContainer" in d["cam"]["camParameters"]
